@@ -228,6 +228,23 @@ def run(ck: Check):
                 continue
             break
         ck.count("soft_value_checks", K)
+    # ---- zero padding: the cells outside the image are Boolean 0 (A = -1 in the +-1 encoding), not the 0 of the +-1 scale.  A padded Walsh
+    # convolution in eval mode against the reference circuit built from its own coefficients, every input of a 3x3 image, and compiled
+    for pad, stride, depth in ((1, 1, 1), (2, 2, 2), (1, 2, 1)):
+        torch.manual_seed(ck.seed + 17 + pad)
+        pm = nets.make_custom(ck.rng, (1, 3, 3), [("conv", dict(K=2, depth=depth, rf=2, pad=pad, stride=stride)), ("flatten",)], param="walsh")
+        pspec = nets.extract(pm)
+        prow = nets.all_rows(9)
+        ck.case({"layer": "conv", "padding": pad, "stride": stride, "depth": depth, "padded": True}, nontrivial=True, kind="conv-padded")
+        pm.eval()
+        with torch.no_grad():
+            pgot = pm(torch.tensor(prow, dtype=torch.float32).reshape(-1, 1, 3, 3)).int().tolist()
+        pexp = [[int(v) for v in nets.eval_spec(pspec, r)] for r in prow]
+        if pgot != pexp:
+            pj = next(i for i in range(len(prow)) if pgot[i] != pexp[i])
+            ck.disagree("a zero-padded Walsh convolution in eval mode differs from the Boolean function given by the signs of its form (padding cells are Boolean 0)",
+                        {"padding": pad, "stride": stride, "depth": depth, "row": prow[pj], "differing_rows": sum(1 for a_, b_ in zip(pgot, pexp) if a_ != b_)},
+                        expected=pexp[pj], observed=pgot[pj], signature={"layer": "conv", "what": "eval-padded"})
     # ---- half-precision parameters (F20): the compiler, the eval forward and a float32 copy of the same stored coefficients agree
     for dt in (torch.bfloat16, torch.float16):
         torch.manual_seed(ck.seed + 11)
